@@ -113,7 +113,7 @@ Viol(ev) ==
      [] ev.e = "CrcAlt" -> CrcAltViol(ev)
      [] ev.e = "Layout" -> LayoutViol(ev)
      [] ev.e = "Fault" -> {"fault: " \o ev.how}
-     [] ev.e = "Create" -> IF ev.rc <= 0 THEN {"create failed in a sweep"} ELSE {}
+     [] ev.e = "Create" -> IF ev.rc <= 0 /\ (~Has(ev, "wnat") \/ ev.wnat = 1) THEN {"create failed in a sweep"} ELSE {}
      [] ev.e = "Enc" -> IF ev.rc # 0 THEN {"encode failed in a sweep"} ELSE {}
      [] OTHER -> {}
 Count(ev) ==
